@@ -387,6 +387,36 @@ fn main() {
         run.sample(|| json!({"a": "2705032704e-9", "b": "7e0"}));
         t
     });
+    // ---- S8: structured operands against their value-equal twins and +-1 neighbours at gaps on both sides
+    // of the u64 / u128 power-of-ten limits
+    let st = structured_ints(tier.pick(80, 300), tier.pick(24, 60), run.seed());
+    run.bound("S8_structured_integers", st.len());
+    run.par("S8 structured operands", st.len(), |i| {
+        let mut t = Tally::default();
+        let x = &st[i];
+        for g in [0u64, 1, 2, 9, 10, 18, 19, 20, 21, 37, 38, 39, 40] {
+            let p = pow10(g);
+            for sign in [1, -1] {
+                for base_scale in [0i128, 4] {
+                    let a = Dec { n: x * sign, s: base_scale };
+                    for d in [-1i64, 0, 1] {
+                        let b = Dec { n: (x * &p + d) * sign, s: base_scale + g as i128 };
+                        t.nontrivial += 2;
+                        full_check(&run, &a, &b, &mut t);
+                    }
+                }
+            }
+        }
+        // against the next structured integer (neighbouring shapes, same scale and shifted)
+        if i + 1 < st.len() {
+            for (sa, sb) in [(0i128, 0i128), (1, 0), (0, 1), (0, 20)] {
+                t.nontrivial += 2;
+                full_check(&run, &Dec { n: x.clone(), s: sa }, &Dec { n: st[i + 1].clone(), s: sb }, &mut t);
+                full_check(&run, &Dec { n: -x.clone(), s: sa }, &Dec { n: st[i + 1].clone(), s: sb }, &mut t);
+            }
+        }
+        t
+    });
     // ---- S7: tightness of the bit-length pre-test ----------------------------------------------------
     // the scaled comparison first compares bits(a) with bits(b) + floor(g*log2 10); that estimate is tight
     // exactly when b is a power of two and a = b*10^g: every gap up to a bound, then the gaps up to 100000
